@@ -136,12 +136,38 @@ class Tracer:
             t = payload
             args = tuple(self.operand(a, pos, depth + 1) for a in t["args"])
             name = callee_name(t)
+            if "box_assume_init_into_vec_unsafe" in name and args:
+                v = self._vec_macro_elements(args[0], depth)
+                if v is not None:
+                    return v
             if t.get("callee") is None:
                 fe = self.operand(t["func"], pos, depth + 1) if "func" in t else None
                 return ("call", "<indirect>", (fe,) + args, (self.fn.name, bb))
             return ("call", name, args, (self.fn.name, bb))
         r = payload
         return self.rvalue(r, pos, depth + 1)
+
+    def _vec_macro_elements(self, boxexpr, depth):
+        """`vec![a, b]` lowers to Box::new_uninit() + a write of the array through a raw pointer +
+        box_assume_init_into_vec_unsafe(box): recover the array elements."""
+        uninit = [x for x in walk(boxexpr) if x[0] == "call" and "new_uninit" in x[1]]
+        if not uninit:
+            return None
+        upos = uninit[0][3]
+        for b, i, s in self.fn.assigns():
+            p = s["p"]
+            if not p["proj"] or p["proj"][0][0] != "deref":
+                continue
+            r = s["r"]
+            if r["k"] not in ("aggregate", "repeat"):
+                continue
+            base = self.local(p["l"], (b, i), depth + 1)
+            if any(x[0] == "call" and x[3] == upos for x in walk(base)):
+                if r["k"] == "repeat":
+                    return ("agg", "vec", None, None, (self.operand(r["a"], (b, i), depth + 1),))
+                ops = tuple(self.operand(o, (b, i), depth + 1) for o in r["ops"])
+                return ("agg", "vec", None, None, ops)
+        return None
 
     def rvalue(self, r, pos, depth=0):
         k = r["k"]
